@@ -160,6 +160,7 @@ func cmdCheck(args []string) int {
 	tier := fs.String("tier", "quick", "")
 	root := fs.String("repo", repoRoot, "")
 	dump := fs.String("dump", "", "")
+	dumpall := fs.Bool("dumpall", false, "with --dump: write every query of the property and exit without solving")
 	if len(args) < 1 {
 		fmt.Println("usage: vfy check <id> [--tier quick|thorough]")
 		return 2
@@ -237,6 +238,13 @@ func cmdCheck(args []string) int {
 		trivial += n
 	}
 	genS := time.Since(t0).Seconds()
+	if *dumpall && *dump != "" {
+		for i, q := range qs {
+			dumpQuery(*dump, x, q, i)
+		}
+		fmt.Printf("dumped %d queries to %s\n", len(qs), *dump)
+		return 0
+	}
 	res := x.dischargeAll(qs, *tier, 16)
 	agg := aggregate(res)
 
